@@ -61,14 +61,21 @@ StateClause(c, o) ==
   ELSE IF ~SeedsResolve(o.PC, C) THEN "seed-unresolved"
   ELSE IF ~Consistent(o.PC, C) THEN "dangling-ref-in-graph"
   ELSE
+  \* a routine declared in an interface block is a dependency by name; whether it is still an edge when nothing calls it
+  \* any more (RemoveKernel and DuplicateKernel leave such blocks behind) is not documented: the graph must lie between the
+  \* closure over the CALL statements alone and the closure over CALL statements + interface declarations
   LET T == PrunedClosure(o.PC, C)
-      enames == {Full(n) : n \in T.nodes}
-      eedges == {<<Full(e[1]), Full(e[2])>> : e \in T.edges}
+      PL == [o.PC EXCEPT !.procs = MapS(@, LAMBDA r : [r EXCEPT !.calls = r.rcalls])]
+      TL == PrunedClosure(PL, C)
+      unames == {Full(n) : n \in T.nodes}
+      uedges == {<<Full(e[1]), Full(e[2])>> : e \in T.edges}
+      lnames == {Full(n) : n \in TL.nodes}
+      ledges == {<<Full(e[1]), Full(e[2])>> : e \in TL.edges}
   IN
-  IF enames \ NodeNamesOf(o) # {} THEN "nodes-missing"
-  ELSE IF NodeNamesOf(o) \ enames # {} THEN "nodes-extra"
-  ELSE IF eedges \ EdgesOf(o) # {} THEN "edges-missing"
-  ELSE IF EdgesOf(o) \ eedges # {} THEN "edges-extra"
+  IF lnames \ NodeNamesOf(o) # {} THEN "nodes-missing"
+  ELSE IF NodeNamesOf(o) \ unames # {} THEN "nodes-extra"
+  ELSE IF ledges \ EdgesOf(o) # {} THEN "edges-missing"
+  ELSE IF EdgesOf(o) \ uedges # {} THEN "edges-extra"
   ELSE IF \E i, j \in DOMAIN o.paths : i # j /\ o.paths[i].path = o.paths[j].path THEN "output-path-clash"
   ELSE IF ~UniqueUnits(PB) THEN "output-duplicate-unit"
   ELSE IF \E r \in Procs(o.PG) : ~ProcRefsLegal(PB, r) THEN "output-dangling-ref"
